@@ -78,7 +78,7 @@ def _disarm():
     signal.alarm(0)
 
 
-def run_shard(prop, tier, seed, shard, nshards, budget_s, max_cases, only=None):
+def run_shard(prop, tier, seed, shard, nshards, budget_s, max_cases, only=None, echo_only=False):
     """Returns the shard's result dict.  ``only`` = (cls, index) replays one case."""
     t0 = time.time()
     src = boot.setup()
@@ -114,10 +114,10 @@ def run_shard(prop, tier, seed, shard, nshards, budget_s, max_cases, only=None):
     exhausted = set()
     n_case_errors = 0
 
-    def one(cls, index):
+    def one(cls, index, echo=False):
         nonlocal n_case_errors
         ctx = Ctx(mon, prop, seed, tier, cls, index)
-        mon.case = {"cls": cls, "index": index}
+        mon.case = {"cls": cls, "index": index, "echo": True} if echo else {"cls": cls, "index": index}
         mon.case_desc = None
         mon.reset_guard()
         _arm(per_case_timeout)
@@ -154,6 +154,9 @@ def run_shard(prop, tier, seed, shard, nshards, budget_s, max_cases, only=None):
         finally:
             _disarm()
             mon.case = None
+        if echo:
+            res["echo_cases"] += 1
+            return "ok"
         res["evaluations"] += 1
         c = res["classes"].setdefault(cls, [0, 0, 0])
         c[0] += 1
@@ -167,8 +170,39 @@ def run_shard(prop, tier, seed, shard, nshards, budget_s, max_cases, only=None):
                 res["samples"].append({"cls": cls, "index": index, "case": ctx.desc[:500]})
         return "ok"
 
+    # "echo": every ECHO-th case is run, then every object that an outermost hooked call handed to the driver is
+    # modified in place (a caller owns what a value-returning operation gave it), then the same case - equal
+    # inputs, fresh objects - is run again under the same monitors.  A library that kept an alias of something
+    # it handed out (a memo table returning the cached object, a module-level constant returned by reference)
+    # now answers from the caller's scribbles, and the monitors see it.
+    echo_every = getattr(mod, "ECHO", {}).get(tier, 3)
+    res["echo_cases"] = 0
+    res["echo_scribbled"] = 0
+
+    def with_echo(cls, index):
+        from .gen.scribble import scribble
+
+        mon.collect = []
+        try:
+            out = one(cls, index)
+            got = mon.collect
+        finally:
+            mon.collect = None
+        if out != "ok":
+            return out
+        n = 0
+        for r in got:
+            n += scribble(r)
+        del got
+        res["echo_scribbled"] += n
+        one(cls, index, echo=True)
+        return out
+
     if only is not None:
-        one(*only)
+        if echo_only:
+            with_echo(*only)
+        else:
+            one(*only)
     else:
         r = 0
         done = 0
@@ -186,7 +220,8 @@ def run_shard(prop, tier, seed, shard, nshards, budget_s, max_cases, only=None):
                     stop = True
                     break
                 index = shard + r * nshards
-                out = one(cls, index)
+                out = with_echo(cls, index) if echo_every and case_seed(seed, "echo", cls, index) % echo_every == 0 \
+                    else one(cls, index)
                 if out == "exhausted":
                     exhausted.add(cls)
                 else:
@@ -308,6 +343,7 @@ def main(argv=None):
     ap.add_argument("--only", default=None, help="cls:index")
     ap.add_argument("--out", required=True)
     ap.add_argument("--piggyback", action="store_true")
+    ap.add_argument("--echo", action="store_true", help="with --only: run the case, scribble on its results, run it again")
     a = ap.parse_args(argv)
     if a.piggyback:
         try:
@@ -322,7 +358,7 @@ def main(argv=None):
         cls, idx = a.only.rsplit(":", 1)
         only = (cls, int(idx))
     try:
-        res = run_shard(a.prop, a.tier, a.seed, a.shard, a.nshards, a.budget, a.max_cases, only)
+        res = run_shard(a.prop, a.tier, a.seed, a.shard, a.nshards, a.budget, a.max_cases, only, a.echo)
     except Exception:
         res = {"fatal": traceback.format_exc()[-3000:], "prop": a.prop, "shard": a.shard}
     with open(a.out, "w") as f:
